@@ -45,12 +45,12 @@ class Explorer:
         """atom_truth(test_node, state) -> True | False | None for an atomic test (not BoolOp / not);
         on_stmt(stmt, state) records the effect of a simple statement in ``state`` (a dict, copied per branch);
         on_branch(test_node, value, state) is told which way an explored-both-ways atomic test was taken;
-        expand_loop(loop_stmt) -> True if the loop body is to be walked ONCE in place of the loop (one representative
+        expand_loop(loop_stmt, state) -> True if the loop body is to be walked ONCE in place of the loop (one representative
         iteration; break / continue / falling off the body all go on after the loop)."""
         self.atom_truth = atom_truth
         self.on_stmt = on_stmt or (lambda st, state: None)
         self.on_branch = on_branch or (lambda t, v, state: None)
-        self.expand_loop = expand_loop or (lambda st: False)
+        self.expand_loop = expand_loop or (lambda st, state: False)
         self.max_paths = max_paths
         self.n = 0
 
@@ -103,16 +103,18 @@ class Explorer:
                 for v, s in self._eval(st.test, self._fork(state)):
                     self._run(list(st.body if v else st.orelse), s, out, [rest] + cont, loop)
                 return
-            if isinstance(st, (ast.For, ast.While)) and self.expand_loop(st):
+            if isinstance(st, (ast.For, ast.While)) and self.expand_loop(st, state):
                 rest = stmts[i + 1:]
                 self.on_stmt(st, state)
-                inner = (rest, cont, loop)
-                # marker continuation: falling off the body leaves the loop
+                inner = (rest, cont, loop, list(st.orelse))
+                # marker continuation: falling off the body leaves the loop (through its else clause)
                 self._run(list(st.body), state, out, [], inner)
                 return
             if isinstance(st, (ast.Continue, ast.Break)):
                 if loop is not None:
-                    self._run(list(loop[0]), state, out, loop[1], loop[2])
+                    # break skips the loop's else clause; continue = this (representative) iteration is over
+                    after = list(loop[0]) if isinstance(st, ast.Break) else list(loop[3]) + list(loop[0])
+                    self._run(after, state, out, loop[1], loop[2])
                 else:
                     self._emit(out, state, "continue" if isinstance(st, ast.Continue) else "break")
                 return
@@ -136,7 +138,7 @@ class Explorer:
         if cont:
             self._run(list(cont[0]), state, out, cont[1:], loop)
         elif loop is not None:
-            self._run(list(loop[0]), state, out, loop[1], loop[2])
+            self._run(list(loop[3]) + list(loop[0]), state, out, loop[1], loop[2])
         else:
             self._emit(out, state, "fall")
 
